@@ -25,7 +25,8 @@ F_Vals(n, card) == CASE card = 1 -> V13(n) \cup VExtra(n)
 \* behaviour generation (replayed on the real code)
 G_Ns == 1..6
 GF_Ns == 1..8
-G_Vals(n, card) == CASE card = 1 -> V13(n) \cup VExtra(n)
+GExtra(n) == {2, -2, 3, -3, 4 * n + 10, -(4 * n + 10)}
+G_Vals(n, card) == CASE card = 1 -> V13(n) \cup GExtra(n)
                      [] card = 2 -> V7(n) \cup {4, -4 * (n + 1)}
                      [] card = 3 -> V5(n)
                      [] card = 4 -> V4(n)
